@@ -972,12 +972,12 @@ fn editable(p: &str) -> bool {
     p.matches(".conflict-").count() <= 2 && !p.ends_with(".copia-tmp")
 }
 
-fn user_ops(st: &State, u0: &[&str]) -> Vec<(String, State)> {
+fn user_ops(st: &State, u0: &[&str], decor: &[&str]) -> Vec<(String, State)> {
     let mut paths: BTreeSet<String> = u0.iter().map(|s| (*s).to_string()).collect();
     paths.extend(st.a.keys().cloned());
     paths.extend(st.b.keys().cloned());
     let mut out = Vec::new();
-    for p in paths.iter().filter(|p| editable(p)) {
+    for p in paths.iter().filter(|p| editable(p) && !decor.contains(&p.as_str())) {
         for side in ["A", "B"] {
             let cur = if side == "A" { st.a.get(p).copied() } else { st.b.get(p).copied() };
             for c in 1..=3u8 {
@@ -1008,6 +1008,9 @@ fn user_ops(st: &State, u0: &[&str]) -> Vec<(String, State)> {
 }
 
 pub struct Bound {
+    /// paths that are rewritten on side A (cycling through the contents) before EVERY bisync transition, on top
+    /// of the user's edits and not counted against `m`: independent, always-pending actions in a sibling directory
+    pub decor: Vec<&'static str>,
     pub u0: Vec<&'static str>,
     pub e: u8,
     pub m: u8,
@@ -1080,7 +1083,7 @@ pub fn explore_collect(ctx: &Ctx, mode: &str, bounds: &[Bound], fault_full_trunc
             // user ops (pure map edits by the harness)
             for st in &frontier {
                 if st.runs > 0 && st.runs < bd.e && st.ops < bd.m {
-                    for (label, ns) in user_ops(st, &bd.u0) {
+                    for (label, ns) in user_ops(st, &bd.u0, &bd.decor) {
                         tot_trans += 1;
                         if seen.insert(ns.clone()) {
                             let mut h = hist.get(st).cloned().unwrap_or_default();
@@ -1092,7 +1095,30 @@ pub fn explore_collect(ctx: &Ctx, mode: &str, bounds: &[Bound], fault_full_trunc
                 }
             }
             // bisync transitions (real code)
-            let run_states: Vec<&State> = frontier.iter().filter(|st| st.runs < bd.e && (st.runs == 0 || st.ops > 0)).collect();
+            let decorated: Vec<State> = if bd.decor.is_empty() {
+                Vec::new()
+            } else {
+                frontier
+                    .iter()
+                    .map(|st| {
+                        let mut d = st.clone();
+                        for p in &bd.decor {
+                            let nc = d.a.get(*p).map_or(1, |c| c % 3 + 1);
+                            d.a.insert((*p).to_string(), nc);
+                        }
+                        d
+                    })
+                    .collect()
+            };
+            if !bd.decor.is_empty() {
+                for (st, d) in frontier.iter().zip(&decorated) {
+                    let mut h = hist.get(st).cloned().unwrap_or_default();
+                    h.push(format!("auto-rewrite on A: {:?}", bd.decor.iter().map(|p| format!("{p}=c{}", d.a[*p])).collect::<Vec<_>>()));
+                    hist.entry(d.clone()).or_insert(h);
+                }
+            }
+            let pool_src: &Vec<State> = if bd.decor.is_empty() { &frontier } else { &decorated };
+            let run_states: Vec<&State> = pool_src.iter().filter(|st| st.runs < bd.e && (st.runs == 0 || st.ops > 0 || !bd.decor.is_empty())).collect();
             if let Some(c) = collect.as_deref_mut() {
                 for st in &run_states {
                     c.push(((*st).clone(), hist.get(*st).cloned().unwrap_or_default()));
@@ -1416,13 +1442,16 @@ pub fn run(ctx: &Ctx, mode: &str) -> ! {
     let t = ctx.tier.is_thorough();
     // universes: a single path; two independent paths; a pair whose byte order and component order
     // disagree ("n.t" < "n/t" bytewise, "n/t" < "n.t" as paths); a file-vs-directory pair ("d", "d/g")
-    let b = |u0: Vec<&'static str>, e: u8, m: u8| Bound { u0, e, m, state_cap: 2_500_000 };
+    let b = |u0: Vec<&'static str>, e: u8, m: u8| Bound { u0, e, m, state_cap: 2_500_000, decor: vec![] };
+    // "d/f" with two always-pending propagations under the sibling directory "d.b" (plans of >= 3 entries whose
+    // byte order and component order disagree)
+    let bd = |u0: Vec<&'static str>, e: u8, m: u8| Bound { u0, e, m, state_cap: 2_500_000, decor: vec!["d.b/x", "d.b/y"] };
     let bounds: Vec<Bound> = match (mode, t) {
         ("C07", false) => vec![b(vec!["f"], 2, 2), b(vec!["n.t", "n/t"], 1, 0)],
         ("C07", true) => vec![b(vec!["f"], 3, 2), b(vec!["f", "d/g"], 2, 1), b(vec!["n.t", "n/t"], 2, 1)],
         ("C06", true) => vec![b(vec!["f"], 4, 2), b(vec!["f"], 3, 3), b(vec!["f", "d/g"], 3, 2), b(vec!["n.t", "n/t"], 2, 2)],
-        (_, false) => vec![b(vec!["f"], 3, 2), b(vec!["f", "d/g"], 2, 1), b(vec!["n.t", "n/t"], 2, 1), b(vec!["d", "d/g"], 2, 1)],
-        (_, true) => vec![b(vec!["f"], 5, 2), b(vec!["f"], 3, 3), b(vec!["f", "d/g"], 3, 2), b(vec!["n.t", "n/t"], 3, 2), b(vec!["d", "d/g"], 3, 2)],
+        (_, false) => vec![b(vec!["f"], 3, 2), b(vec!["f", "d/g"], 2, 1), b(vec!["n.t", "n/t"], 2, 1), b(vec!["d", "d/g"], 2, 1), bd(vec!["d/f"], 2, 3)],
+        (_, true) => vec![b(vec!["f"], 5, 2), b(vec!["f"], 3, 3), b(vec!["f", "d/g"], 3, 2), b(vec!["n.t", "n/t"], 3, 2), b(vec!["d", "d/g"], 3, 2), bd(vec!["d/f"], 3, 3)],
     };
     let (mut rep, mut v) = explore(ctx, mode, &bounds, 1);
     if mode == "C06" {
